@@ -119,6 +119,7 @@ void check_history(History const& h, Problem const& prob, OracleOpts const& opts
     };
     std::uint32_t const boundary_action = action_id("geo-boundary");
     std::uint32_t const failure_action = action_id("physics-failure");
+    std::uint32_t const tracking_cut_action = action_id("tracking-cut");
     std::uint32_t const discrete_action = action_id("physics-discrete-select");
 
     // ---- reference track-set model (C02) ----
@@ -134,12 +135,14 @@ void check_history(History const& h, Problem const& prob, OracleOpts const& opts
     {
         double q_in{0}, dep{0}, esc{0}, abs_sum{0};
         long n_prim{0};
+        long n_terms{0};
     };
     std::map<std::uint32_t, Balance> balance;
     // per-track balance
     struct TBalance
     {
         double q_first{0}, q_last{0}, dep{0}, sec{0}, abs_sum{0};
+        long n_terms{0};
         bool ended{false};
     };
     std::map<TrackKey, TBalance> tbal;
@@ -218,7 +221,7 @@ void check_history(History const& h, Problem const& prob, OracleOpts const& opts
                 // continuing track
                 if (opts.c02)
                 {
-                    if (o.status != ST_ALIVE)
+                    if (o.status != ST_ALIVE && !(f.after_kill && o.status == ST_ERRORED))
                         out.violate("C02",
                                     "continuing-track-status",
                                     "continuing-track-status",
@@ -246,7 +249,9 @@ void check_history(History const& h, Problem const& prob, OracleOpts const& opts
             }
             if (opts.c02)
             {
-                if (o.status != ST_INIT)
+                if (o.status == ST_ERRORED)
+                    out.probe("track_failed_to_initialize");
+                if (o.status != ST_INIT && o.status != ST_ERRORED)
                     out.violate("C02",
                                 "new-track-status",
                                 "new-track-status",
@@ -366,7 +371,7 @@ void check_history(History const& h, Problem const& prob, OracleOpts const& opts
                 {
                     SlotObs const& p = it->second;
                     bool same = bits(p.energy) == bits(b.energy) && bits(p.time) == bits(b.time)
-                                && p.volume == b.volume;
+                                && (p.volume == b.volume || b.status == ST_ERRORED);
                     for (int k = 0; k < 3; ++k)
                         same = same && bits(p.pos[k]) == bits(b.pos[k]);
                     if (!same)
@@ -445,7 +450,9 @@ void check_history(History const& h, Problem const& prob, OracleOpts const& opts
                        << c.step_length << ": " << fmt_slot(f, s, c);
                     out.violate("C05", klass, klass, os.str());
                 }
-                if (!c.outside && c.volume != b.volume && c.post_action != boundary_action)
+                // a track cut after a geometry error has no meaningful volume
+                bool cut = (c.post_action == tracking_cut_action);
+                if (!cut && !c.outside && c.volume != b.volume && c.post_action != boundary_action)
                 {
                     out.violate("C05",
                                 "volume-changed-without-boundary",
@@ -453,7 +460,7 @@ void check_history(History const& h, Problem const& prob, OracleOpts const& opts
                                 "volume changed on a step not limited by a boundary: pre vol "
                                     + std::to_string((int)b.volume) + " " + fmt_slot(f, s, c));
                 }
-                if (c.outside && c.post_action != boundary_action)
+                if (!cut && c.outside && c.post_action != boundary_action)
                 {
                     out.violate("C05",
                                 "left-world-without-boundary",
@@ -465,7 +472,9 @@ void check_history(History const& h, Problem const& prob, OracleOpts const& opts
                     // Differential location check: the volume reported while
                     // tracking equals a fresh initialization at the same point
                     double saf = opts.probe->safety(b.pos);
-                    if (saf > 100 * opts.geo_tol)
+                    // in a field the propagator treats points within
+                    // delta_intersection of a surface as being on it
+                    if (saf > 100 * opts.geo_tol + 8 * opts.field_disp_tol)
                     {
                         std::uint32_t v = opts.probe->locate(b.pos);
                         out.count("volume_checks");
@@ -487,7 +496,9 @@ void check_history(History const& h, Problem const& prob, OracleOpts const& opts
             // ---- C01: per-step energy balance ----
             double q_pre = b.energy + two_mc2(b.particle);
             bool ended = c.status >= ST_ERRORED;
-            bool escaped = ended && c.outside;
+            // left the world: ended by the boundary action while outside (a track
+            // that failed to start outside is cut by the tracking cut instead)
+            bool escaped = ended && c.outside && c.post_action == boundary_action;
             double q_post = (!ended || escaped) ? c.energy + two_mc2(c.particle) : 0.0;
             double sec_sum = 0, abs_terms = std::fabs(q_pre) + std::fabs(q_post) + std::fabs(c.deposit);
             for (auto const& sec : c.secondaries)
@@ -536,6 +547,7 @@ void check_history(History const& h, Problem const& prob, OracleOpts const& opts
                 auto& eb = balance[a.event];
                 eb.dep += c.deposit;
                 eb.abs_sum += std::fabs(c.deposit);
+                ++eb.n_terms;
                 if (escaped)
                 {
                     eb.esc += q_post;
@@ -547,6 +559,7 @@ void check_history(History const& h, Problem const& prob, OracleOpts const& opts
                 tb.sec += sec_sum;
                 tb.q_last = q_post;
                 tb.abs_sum += std::fabs(c.deposit) + sec_sum;
+                tb.n_terms += 1 + c.secondaries.size();
                 if (ended)
                     tb.ended = true;
             }
@@ -715,7 +728,8 @@ void check_history(History const& h, Problem const& prob, OracleOpts const& opts
             for (auto const& kv : balance)
             {
                 Balance const& b = kv.second;
-                double tol = 64 * EPS * b.abs_sum + 1e-12;
+                // rounding bound for a sequential sum of n terms
+                double tol = (64 + b.n_terms + b.n_prim) * EPS * b.abs_sum + 1e-12;
                 out.count("event_balance_checks");
                 if (!(std::fabs(b.q_in - (b.dep + b.esc)) <= tol))
                 {
@@ -734,7 +748,7 @@ void check_history(History const& h, Problem const& prob, OracleOpts const& opts
                     continue;
                 // energy lost over its steps = deposited + given to direct secondaries
                 double lost = t.q_first - t.q_last;
-                double tol = 64 * EPS * (t.abs_sum + std::fabs(t.q_first)) + 1e-12;
+                double tol = (64 + t.n_terms) * EPS * (t.abs_sum + std::fabs(t.q_first)) + 1e-12;
                 if (!(std::fabs(lost - (t.dep + t.sec)) <= tol))
                 {
                     std::ostringstream os;
